@@ -11,8 +11,9 @@ import ast
 import itertools
 from fractions import Fraction as Fr
 
-from .srcmodel import AnalysisError
+from .srcmodel import AnalysisError, NotAnOffset
 from .algebra import Poly, Rat, Z8, AlgebraError, multi_indices
+from . import ndarr
 from .ndarr import Arr, Unk, Choice, ew1
 from .absint import Interp, Obj, Closure
 from .libmodels import Models
@@ -296,6 +297,9 @@ class StencilRunner(object):
         for v, xk, w in zip(vals, xs, z2v):
             d = _as_poly(v) - xk + Poly.const(Z8.J) * _as_poly(w)
             if d.atoms() & xatoms:
+                wit = ndarr.offset_depends_on_point(d, xatoms)
+                if wit is not None:
+                    raise NotAnOffset('evaluation point is not x + offset: %s' % (repr(v)[:200],), wit)
                 raise AnalysisError('evaluation point is not x + offset: %r' % (v,))
             off.append(d)
         return off
